@@ -10,4 +10,4 @@ python3 translator/maps.py ${TV_REPO:-/repo} lean/Tv/GenMap.lean
 python3 translator/drivers.py ${TV_REPO:-/repo} lean/Tv/GenDrv.lean
 python3 translator/gens.py ${TV_REPO:-/repo} lean/Tv/GenLin.lean
 (cd lean && lake build Tv tvmodel)
-(cd harness && cargo build)
+(cd harness && cargo build --features polars)
